@@ -354,12 +354,42 @@ type outcome struct {
 	panicMsg string
 }
 
-func serve(rq request) (out outcome) {
+// how the request body is presented to the gateway (the bytes are the same)
+const (
+	bodyDeclared  = iota // Content-Length declared, body readable in one piece
+	bodyUndeclared       // length not declared (chunked upload): Request.ContentLength = -1
+	bodyTrickle          // undeclared, and every Read returns one byte
+)
+
+// plainReader hides the concrete type of the body so that net/http cannot derive a length from it;
+// with `one` every Read returns at most one byte.
+type plainReader struct {
+	r   io.Reader
+	one bool
+}
+
+func (p plainReader) Read(b []byte) (int, error) {
+	if p.one && len(b) > 1 {
+		b = b[:1]
+	}
+	return p.r.Read(b)
+}
+
+func serve(rq request) (out outcome) { return serveAs(rq, bodyDeclared) }
+
+func serveAs(rq request, mode int) (out outcome) {
 	h := &handler{sc: rq.sc}
 	out.h = h
 	rec := httptest.NewRecorder()
 	out.rec = rec
-	req := httptest.NewRequest("POST", "/service.Server/Method", bytes.NewReader(rq.body.bytes()))
+	var body io.Reader = bytes.NewReader(rq.body.bytes())
+	if mode != bodyDeclared {
+		body = plainReader{r: body, one: mode == bodyTrickle}
+	}
+	req := httptest.NewRequest("POST", "/service.Server/Method", body)
+	if mode != bodyDeclared {
+		req.TransferEncoding = []string{"chunked"}
+	}
 	if !rq.noCT {
 		req.Header["Content-Type"] = []string{rq.ct}
 	}
